@@ -111,9 +111,12 @@ def ncNameStart : RangeSet :=
    (0x37F, 0x1FFF), (0x200C, 0x200D), (0x2070, 0x218F), (0x2C00, 0x2FEF), (0x3001, 0xD7FF),
    (0xF900, 0xFDCF), (0xFDF0, 0xFFFD), (0x10000, 0xEFFFF)]
 
-/-- NameChar without ':' -/
+/-- NameChar without ':' : NameStartChar | "-" | "." | [0-9] | #xB7 | [#x0300-#x036F] | [#x203F-#x2040], written as
+    sorted maximal ranges ([#xF8-#x2FF], [#x300-#x36F], [#x370-#x37D] merge into one) -/
 def ncNameChar : RangeSet :=
-  ncNameStart ++ [(0x2D, 0x2E), (0x30, 0x39), (0xB7, 0xB7), (0x300, 0x36F), (0x203F, 0x2040)]
+  [(0x2D, 0x2E), (0x30, 0x39), (0x41, 0x5A), (0x5F, 0x5F), (0x61, 0x7A), (0xB7, 0xB7), (0xC0, 0xD6), (0xD8, 0xF6),
+   (0xF8, 0x37D), (0x37F, 0x1FFF), (0x200C, 0x200D), (0x203F, 0x2040), (0x2070, 0x218F), (0x2C00, 0x2FEF),
+   (0x3001, 0xD7FF), (0xF900, 0xFDCF), (0xFDF0, 0xFFFD), (0x10000, 0xEFFFF)]
 
 def isNCName : Str → Bool
   | [] => false
@@ -175,22 +178,23 @@ structure AttrInfo where
   /-- an attribute whose name is not a propertyAttributeURI and not one of the above
       (`rdf:RDF`, `rdf:Description`, `rdf:li`, `rdf:aboutEach`, `rdf:aboutEachPrefix`, `rdf:bagID`) -/
   bad : Bool := false
-  /-- an attribute without namespace -/
+  /-- an attribute without namespace (other than the names reserved by XML, which are ignored) -/
   unsup : Bool := false
   deriving Repr, DecidableEq
 
 def getAttr (attrs : List Attr) (ns name : Str) : Option Str :=
   (attrs.find? (fun a => decide (a.ns = ns ∧ a.name = name))).map (·.val)
 
+/-- 7.2.2 coreSyntaxTerms, 7.2.4 oldTerms (local names in the RDF namespace) -/
+def coreSyntaxTerms : List Str := [n_RDF, n_ID, n_about, n_parseType, n_resource, n_nodeID, n_datatype]
+def oldTerms : List Str := [n_aboutEach, n_aboutEachPrefix, n_bagID]
+
 /-- names in the RDF namespace that are neither syntax attributes handled by `AttrInfo` nor allowed
     as property attributes -/
-def badAttrName (name : Str) : Bool :=
-  name = n_RDF || name = n_Description || name = n_li || name = n_aboutEach ||
-  name = n_aboutEachPrefix || name = n_bagID
+def badAttrName (name : Str) : Bool := ([n_RDF, n_Description, n_li] ++ oldTerms).contains name
 
 def syntaxAttrName (name : Str) : Bool :=
-  name = n_ID || name = n_about || name = n_nodeID || name = n_resource || name = n_datatype ||
-  name = n_parseType
+  [n_ID, n_about, n_nodeID, n_resource, n_datatype, n_parseType].contains name
 
 /-- propertyAttributeURIs = anyURI − (coreSyntaxTerms | rdf:Description | rdf:li | oldTerms); attributes in the
     XML namespace and `xmlns` declarations are not part of the attribute set at all -/
@@ -198,6 +202,17 @@ def isPropAttr (a : Attr) : Bool :=
   a.ns ≠ [] && a.ns ≠ xmlNS && !(a.ns = rdfNS && (badAttrName a.name || syntaxAttrName a.name))
 
 def isBadAttr (a : Attr) : Bool := a.ns = rdfNS && badAttrName a.name
+
+def lower (c : Nat) : Nat := if 0x41 ≤ c ∧ c ≤ 0x5A then c + 0x20 else c
+
+/-- 6.1.2: attributes whose name begins with `xml` (any case) are reserved by XML and removed from the
+    attribute set -/
+def xmlReserved : Str → Bool
+  | a :: b :: c :: _ => lower a = 0x78 && lower b = 0x6D && lower c = 0x6C
+  | _ => false
+
+/-- an attribute without namespace that is not reserved by XML: outside the model -/
+def isUnsupAttr (a : Attr) : Bool := a.ns = [] && !xmlReserved a.name
 
 def info (attrs : List Attr) : AttrInfo :=
   { base := getAttr attrs xmlNS n_base
@@ -210,7 +225,7 @@ def info (attrs : List Attr) : AttrInfo :=
     parseType := getAttr attrs rdfNS n_parseType
     props := attrs.filter isPropAttr
     bad := attrs.any isBadAttr
-    unsup := attrs.any (fun a => a.ns = []) }
+    unsup := attrs.any isUnsupAttr }
 
 /-- `xml:base` is resolved against the base in scope; `xml:lang=""` removes the language -/
 def Env.push (rs : Str → Str → Str) (env : Env) (base lang : Option Str) : Env :=
@@ -289,14 +304,12 @@ def rawOnly : List Node → Option Str
   | _ :: _ => none
 
 /-- nodeElementURIs = anyURI − (coreSyntaxTerms | rdf:li | oldTerms) -/
-def badNodeName (name : Str) : Bool :=
-  name = n_RDF || syntaxAttrName name || name = n_li || name = n_aboutEach ||
-  name = n_aboutEachPrefix || name = n_bagID
+def nodeForbidden : List Str := coreSyntaxTerms ++ [n_li] ++ oldTerms
+def badNodeName (name : Str) : Bool := nodeForbidden.contains name
 
 /-- propertyElementURIs = anyURI − (coreSyntaxTerms | rdf:Description | oldTerms) -/
-def badPropName (name : Str) : Bool :=
-  name = n_RDF || syntaxAttrName name || name = n_Description || name = n_aboutEach ||
-  name = n_aboutEachPrefix || name = n_bagID
+def propForbidden : List Str := coreSyntaxTerms ++ [n_Description] ++ oldTerms
+def badPropName (name : Str) : Bool := propForbidden.contains name
 
 /-- 7.4 list expansion: `rdf:li` stands for `rdf:_n`, `n` the incremented counter of the enclosing element -/
 def isLiName (ns name : Str) : Bool := ns = rdfNS ∧ name = n_li
